@@ -209,9 +209,27 @@ def leafPrepare (name : String) (cstr : String) (swapped : Bool) : PyM LeafPrep 
 def itemConstraintString (op value : String) (swapped : Bool) : String :=
   if swapped then "\"" ++ value ++ "\" " ++ op else op ++ value
 
+/-- `_quoted(value)` (repo fix: a marker string has no escapes, so a value containing a double quote is written in
+single quotes): the quote character used for `value` -/
+def quoteOf (value : String) : String := if value.toList.contains '"' then "'" else "\""
+
+theorem quoteOf_dq {v : String} (h : ∀ c ∈ v.toList, c ≠ '"') : quoteOf v = "\"" := by
+  unfold quoteOf
+  have : v.toList.contains '"' = false := by
+    cases hc : v.toList.contains '"' with
+    | false => rfl
+    | true =>
+      have := List.contains_iff_mem.mp hc
+      exact absurd rfl (h _ this)
+  rw [if_neg (by rw [this]; exact Bool.false_ne_true)]
+
+/-- either quote character is a one-character string that is neither a dot nor a letter -/
+theorem quoteOf_cases (v : String) : quoteOf v = "\"" ∨ quoteOf v = "'" := by
+  unfold quoteOf; split <;> simp
+
 /-- `SingleMarker.__str__` -/
 def leafText (name op value : String) (swapped : Bool) : String :=
-  if swapped then "\"" ++ value ++ "\" " ++ op ++ " " ++ name
-  else name ++ " " ++ op ++ " \"" ++ value ++ "\""
+  if swapped then quoteOf value ++ value ++ quoteOf value ++ " " ++ op ++ " " ++ name
+  else name ++ " " ++ op ++ " " ++ quoteOf value ++ value ++ quoteOf value
 
 end Poetry.Marker
